@@ -17,7 +17,7 @@ RULE = (
     "those references: along bft's output hop distance from the start never decreases and equals the shortest "
     "distance, and each vertex's key (position of its earliest-listed predecessor, index in that predecessor's "
     "neighbour list) increases; dft_recursive's output obeys the pre-order rule (next vertex = first unlisted "
-    "in-universe neighbour of the deepest path vertex that has one).  Determinism: repeating the call and "
+    "in-universe neighbour of the deepest path vertex that has one).  Determinism: repeating the call (also, with neighbor caching on, after calls with other short-lived filter callables) and "
     "rebuilding the description on fresh objects after unrelated allocations give the same index sequence.  "
     "Non-trivial = some expanded vertex had >= 2 not-yet-listed neighbours (a real choice) and the three orders "
     "are not all equal; distinct = distinct case value."
@@ -55,6 +55,11 @@ def _distances(N, s):
 
 
 def check_case(case):
+    with trav.caching(case.get("cache")):
+        return _check_case(case)
+
+
+def _check_case(case):
     from edgegraph.traversal import breadthfirst as B
     from edgegraph.traversal import depthfirst as D
 
@@ -113,6 +118,16 @@ def check_case(case):
     for name, fn, first in (("bft", B.bft, bft), ("dft_recursive", D.dft_recursive, dfr), ("dft_iterative", D.dft_iterative, dfi)):
         again = S.idx(fn(S.uni, start, **S.kw()))
         require(again == first, "not-repeatable", f"{name}: {first} then {again}")
+    if case.get("cache"):
+        # with neighbor caching on: short-lived filter callables of different behaviour must not be confused
+        for name, fn, first in (("bft", B.bft, bft), ("dft_recursive", D.dft_recursive, dfr), ("dft_iterative", D.dft_iterative, dfi)):
+            for _ in range(2):
+                try:
+                    fn(S.uni, start, direction_sensitive=S.d, unknown_handling=S.u, ff_via=S.fresh_ff(accept_all=True))
+                except NotImplementedError:
+                    pass  # the accept-all filter may reach an unknown-class link the real filter prunes (ERROR mode)
+                again = S.idx(fn(S.uni, start, direction_sensitive=S.d, unknown_handling=S.u, ff_via=S.fresh_ff()))
+                require(again == first, "order-depends-on-earlier-call", f"{name} (caching on): {first} first, {again} after a call with another short-lived filter")
     junk = [object() for _ in range(257)] + [graphs.build({"nv": 3, "edges": [[0, 0, 1]], "reassign": []})]
     S2 = trav.Setup(case)
     for name, fn, first in (("bft", B.bft, bft), ("dft_recursive", D.dft_recursive, dfr), ("dft_iterative", D.dft_iterative, dfi)):
@@ -129,7 +144,7 @@ def check_case(case):
             choice = True
         seen.update(N(x))
     differ = not (bft == dfr == dfi)
-    classes = []
+    classes = ["caching-on" if case.get("cache") else "caching-off"]
     if choice:
         classes.append("real-choice")
     if differ:
